@@ -379,7 +379,9 @@ func check11Ops(c Case11, r *core.Rec) {
 				r.NT()
 			}
 		}
-		if (o.Op == "sort" || o.Op == "sortabs") && sortAmbiguous(model) {
+		if (o.Op == "sort" || o.Op == "sortabs") && (sortAmbiguous(model) || !validUTF8List(model)) {
+			// (names handed to the API as strings that are not valid UTF-8 have no order the statement
+			// speaks of — by their bytes, or by the U+FFFD they are serialized as; not judged, like in C16)
 			r.Class("sort-order-ambiguous")
 			return
 		}
